@@ -133,6 +133,13 @@ func NewContextWithOuter(data map[string]interface{}, out *Context) *Context {
 		moot:    &sync.Mutex{},
 	}
 
+	if out != nil {
+		// an inner scope finds the default helpers through its outer scopes:
+		// a copy of its own would hide a value the user stores under a
+		// helper's name in an outer scope afterwards
+		return c
+	}
+
 	for k, v := range Helpers.All() {
 		if !c.isSet(k) {
 			c.Set(k, v)
